@@ -1220,14 +1220,14 @@ def st_preds(draw, fields, prefer=None):
         base = st_pred(fields)
     if draw(st.booleans()):
         return draw(base)
-    return draw(st.lists(base, min_size=0 if draw(st.integers(0, 9)) == 0 else 1, max_size=3))
+    return draw(st.lists(base, min_size=0 if draw(st.integers(0, 9)) == 9 else 1, max_size=3))
 
 
 @st.composite
 def st_result(draw, family, alloc):  # noqa: C901, PLR0911
     """a mapping result; ``alloc`` hands out fresh keys / indices so that most layouts are valid"""
-    r = draw(st.integers(0, 39))
-    if r == 0:
+    r = draw(st.integers(0, 59))
+    if r == 59:
         return ["none"]
     if r in (1, 2) and family in ("flat", "nested"):
         return ["e"]
@@ -1258,15 +1258,15 @@ class Alloc:
         self.mixed_form = 0
 
     def key(self, draw):
-        if draw(st.integers(0, 24)) == 0 or not self.keys:
+        if draw(st.integers(0, 24)) == 24 or not self.keys:
             return draw(st.sampled_from(FLAT_KEYS))  # may collide: exercises the invalid-layout path
         return self.keys.pop(draw(st.integers(0, min(3, len(self.keys) - 1))))
 
     def index(self, draw):
         r = draw(st.integers(0, 11))
-        if r == 0:
+        if r == 11:
             return draw(st.integers(0, 3))  # may collide
-        if r == 1:
+        if r == 10:
             self.next_index += 1  # leave a gap
         i = self.next_index
         self.next_index += 1
@@ -1364,10 +1364,10 @@ def st_recipe(draw, ms, probe):  # noqa: C901, PLR0912, PLR0915
             prov["style"] = draw(st.sampled_from([*STYLES, None]))
         if draw(st.integers(0, 5)) == 0:
             prov["trim"] = draw(st.booleans())
-        if "skip" not in prov and draw(st.integers(0, 4 if optional_in else 11)) == 0:
+        if "skip" not in prov and draw(st.integers(0, 4 if optional_in else 23)) == 4:
             prov["skip"] = draw(st_preds(fields, prefer=optional_in))
-        if draw(st.integers(0, 7)) == 0:
-            if draw(st.integers(0, 3)) != 0 and names:
+        if draw(st.integers(0, 7)) == 7:
+            if draw(st.integers(0, 7)) != 7 and names:
                 keep = required_in + draw(st.lists(st.sampled_from(names), max_size=2))
                 prov["only"] = [["name", n] for n in dict.fromkeys(keep)]
             else:
